@@ -51,6 +51,35 @@ CLAIMS = {
         technique="TLA+ multiset reference semantics (MSRef); all small multisets generated by TLC and replayed by set/try_set/extend/try_from_iter; two-ended iterator cover over duplicates; large real multisets validated by TLC",
         text="Every universe <= 5 (6) x every value sequence of <= 5 (6) values: non-decreasing ones (overfull included) are built by SparseBuilder::multiset + set, try_set, extend and try_from_iter (universe = last + 1) and every present-value answer (count_ones, saturating count_zeros, is_multiset, get, rank, select, select_iter, predecessor = last occurrence, successor = first occurrence) is compared for every argument incl. huge ones; one_iter and the bit iterator are compared forwards and backwards and under the complete transition cover of the iterator machine; sequences that are not non-decreasing must be refused. Recorded multisets with 50-5000 values, long duplicate runs at bucket boundaries, duplicates at 0 and universe-1, more values than the universe, validated by TLC.",
         design_ref="DESIGN.md section 6, C15"),
+    "C06": dict(
+        technique="TLA+ stream machine (SDSStream/MC_Stream: Tiling, loads succeed iff the record is present) model-checked; TLC-generated streams of typed values with format-determined sizes replayed on the real Serialize implementations; recorded streams of large values validated by TLC",
+        text="TLC model-checks the abstract record stream (write / cut / load interleavings) and generates every stream of <= 2 values (<= 3 over the mappable pool in thorough) from a 73-value pool covering every Serialize type - integers, pairs, vectors of them, byte vectors of lengths 0..17, multi-byte UTF-8 strings, nested and absent options, raw/int vectors, plain bitvectors with all 8 support subsets, sparse, run-length, wavelet matrix and core, with the empty instance of each - together with the size the format determines. The harness writes each stream back to back (in memory and through files), and checks bytes written = 8*size_in_elements = size_in_bytes = the determined size, bytes consumed by each load, equality, identical answers of the loaded copy, nothing left; plus the size_by_params grid. Recorded streams of 2-6 large random values are validated by TLC.",
+        design_ref="DESIGN.md section 6, C06"),
+    "C07": dict(
+        technique="Independent codec written in TLA+ from SERIALIZATION.md (tla/Format.tla): encoder/decoder round trip model-checked; direction 2: TLC-encoded files loaded by the library; direction 1: library-written bytes decoded and checked by TLC",
+        text="tla/Format.tla is a second implementation of the format written from the document alone. MC_Format checks on every small-scope content and writer-side choice that the encoder's file is well-formed for the decoder, decodes to the same content and is consumed exactly. Direction 2: those files (raw, int, bitvector without supports, sparse with every low width 1..3 / 1,3,6,9, run-length incl. multi-block, early-closed blocks and wider sample widths, wavelet core and matrix without supports) are loaded by the library and must expose the content, equal the library-built structure and answer all queries. Direction 1: bytes the library writes for small-scope and random contents of every documented type are validated by TLC: little-endian elements, zero padding of byte vectors, zero unused bits, widths, exactly ceil(n/2^w) buckets with one set bit per integer and the item formula, whole runs per 64-unit block, padding only before a block boundary, a (set bits, bits) sample per block, minimal sample and `first` widths, absent values = len; skip_option positions.",
+        design_ref="DESIGN.md section 6, C07"),
+    "C12": dict(
+        technique="TLA+ writer machine (SDSWriter) - all push histories per buffer size generated by TLC and replayed on the real writers, file compared with the in-memory vector's serialization; random long push sequences validated by TLC",
+        text="The specification's writer state has no buffer: buffer size must be unobservable. TLC generates, for the raw writer, every history of 3 pushes over bit pushes and 0/1/31/33/63/64-bit integer pushes for buffer sizes {0,64,65,128} (thorough also 1,63,100) bits - a 64-bit buffer becomes exactly full, over-full by k bits and straddled by an item within 3 pushes - and for the integer writer every push count up to 70 (140) for widths {1,7,33,64} (all of 1,7,31,32,33,63,64) and buffer sizes {0,1,3,9,10,64} items incl. extend; each ended by close, close twice, or drop. The harness checks len() and is_open() after every call, the close results, and that the file is byte-identical to serializing the in-memory vector that received the same pushes. Random sequences of up to 5000 pushes at random widths and buffer sizes are validated by TLC.",
+        design_ref="DESIGN.md section 6, C12"),
+    "C13": dict(
+        technique="TLA+ stream machine with view rules (SDSStream: ViewResult, offsets from format-determined sizes) model-checked; TLC-generated files of mappable structures; the harness creates every view at every record start, outside offsets and on every truncation",
+        text="TLC generates every file of <= 2 (3) structures from the 38 mappable pool values (vectors of u64 and pairs, byte vectors, strings, options of each incl. absent ones, raw and integer vectors, empty structures at the end of the file) with the record offsets the format determines. For each file the harness maps it and creates the matching view (MappedSlice, MappedBytes, MappedStr, MappedOption, RawVectorMapper, IntVectorMapper) at every record start: content equal to the value, map_offset, map_len = the determined size, so offset + length = next offset; at offsets len, len+1, 2len+3, 2^63, MAX-1, MAX every view type must be refused; for every truncation of the file to whole elements a view is accepted iff its record lies entirely inside.",
+        design_ref="DESIGN.md section 6, C13"),
+    "C14": dict(
+        category="fault_enumeration",
+        technique="Fault rules of the TLA+ stream machine (LoadResult / SerializeResult / ViewResult, model-checked in MC_Stream); exhaustive enumeration of fault points on the real code; writer outcomes under a file-size limit validated by TLC (NoSilentLoss)",
+        text="For each of the 73 pool values every byte prefix 0..size-1 of its serialization is given to load (and to skip_option for optionals) and every write budget 0..size-1 to serialize: each must return an error - neither a structure nor a panic. For every file of <= 2 mappable structures every truncation to whole elements is mapped and a view of a cut record must be refused. Buffered writers run under RLIMIT_FSIZE = every limit 0..final size in steps of 8 bytes (SIGXFSZ ignored): TLC validates for each run that the outcome is either a reported failure (constructor error, documented push panic, close error) or complete success with the complete file, and that no failure occurs when the limit is not reached.",
+        design_ref="DESIGN.md section 6, C14"),
+    "C18": dict(
+        technique="TLA+ model of the mapped address space (SDSMap: NewResult, NoLeak); recorded map / drop cycles with /proc/self/maps readings validated by TLC",
+        text="The harness creates memory maps of files of sizes 0, 8, 16, sub-page, exact pages, pages+8, 64 KiB, 1 MiB+8 (thorough: up to 4 MiB), sizes that are not multiples of 8, and a missing file, in both modes, with one or two live maps per cycle and 1-5 cycles, writing through mutable maps. Every event logs the outcome of MemoryMap::new, len(), whether the slice equals the file, and the bytes of the address space backed by that file as read from /proc/self/maps. TLC validates each event against the specification: the defined outcome (error for missing / non-multiple-of-8 / empty files), a valid slice equal to the file, mapped bytes = the page-rounded sizes of the live maps after every new and drop (nothing left after the last drop), and the written value present in the file afterwards.",
+        design_ref="DESIGN.md section 6, C18"),
+    "C19": dict(
+        technique="TLA+ object machine (SDSConv) - all histories of enable_* / serialize+load calls generated by TLC and paired with every content; files without support structures from the document-derived encoder; skip_option positions validated by TLC",
+        text="TLC enumerates every history of depth 4 over enable_rank / enable_select / enable_select_zero / enable_pred_succ / serialize+load from a plain bitvector without supports (every subset reached in every order); for every content <= 6 bits (7) and a boundary family the harness checks after each call the reported subset, the bits, every enabled answer at every argument, equality and byte-identity with the directly built vector with the same subset, and finally that enabling the rest equals the fully enabled original. Sparse vectors, wavelet cores and wavelet matrices are loaded from files produced by tla/Format.tla in which the embedded bitvectors carry no support structures and must answer every query; skip_option over each optional support structure must land on the positions the document-derived decoder computes; absent_option writes one zero element.",
+        design_ref="DESIGN.md section 6, C19"),
 }
 
 NOT_YET = {}
